@@ -41,6 +41,22 @@ type Config struct {
 	// Leader-election timeouts stay free (bounded by MaxTerm), crashes are bounded by MaxNodeFail.
 	// false: the spec's unrestricted either/with (needed for graph equality with TLC).
 	Budgeted bool
+	// DevKinds restricts which kinds of deviation the budgeted environment offers (nil = all):
+	// "fd" (wrong failure-detector answer / message loss), "client-timeout", "election" (spurious
+	// election timeout), "netlen".  A narrower menu reaches deeper within the same budget.
+	DevKinds []string
+}
+
+func (c *Config) dev(kind string) bool {
+	if c.DevKinds == nil {
+		return true
+	}
+	for _, k := range c.DevKinds {
+		if k == kind {
+			return true
+		}
+	}
+	return false
 }
 
 // Req is one client request of a scripted workload.
@@ -178,6 +194,9 @@ func (c *Config) lenRead(t *ss.Txn, cur tla.Value, _ []tla.Value) (tla.Value, tl
 		if n == 1 {
 			return tla.Value{}, num(0), nil
 		}
+		if !c.dev("netlen") {
+			return tla.Value{}, num(0), nil
+		}
 		return tla.Value{}, num(t.Deviate(n, "NetworkBufferLength.other")), nil // 0 (free) or 1..n-1 (cost 1)
 	}
 	return tla.Value{}, num(t.Choose(n+1, "NetworkBufferLength.len")), nil
@@ -244,7 +263,7 @@ func (c *Config) leaderTimeoutRead(t *ss.Txn, cur tla.Value, _ []tla.Value) (tla
 		}
 	}
 	if liveLeader {
-		return tla.Value{}, tla.MakeBool(t.Deviate(2, "LeaderTimeout.spurious") == 1), nil
+		return tla.Value{}, tla.MakeBool(c.dev("election") && t.Deviate(2, "LeaderTimeout.spurious") == 1), nil
 	}
 	if t.Choose(2, "LeaderTimeout.either") == 0 {
 		return tla.Value{}, tla.ModuleTRUE, nil
@@ -285,7 +304,7 @@ func New(c Config) *ss.System {
 		fdRead = nil
 	} else if c.Budgeted {
 		fdRead = func(t *ss.Txn, cur tla.Value, _ []tla.Value) (tla.Value, tla.Value, error) {
-			if t.Deviate(2, "UnreliableFD.wrong-answer") == 0 {
+			if !cfg.dev("fd") || t.Deviate(2, "UnreliableFD.wrong-answer") == 0 {
 				return tla.Value{}, cur, nil
 			}
 			return tla.Value{}, tla.MakeBool(!cur.AsBool()), nil
@@ -363,7 +382,7 @@ func New(c Config) *ss.System {
 		timeoutRead := eitherBool(true, "ClientTimeout.either")
 		if c.Budgeted {
 			timeoutRead = func(t *ss.Txn, cur tla.Value, _ []tla.Value) (tla.Value, tla.Value, error) {
-				return tla.Value{}, tla.MakeBool(t.Deviate(2, "ClientTimeout.fires") == 1), nil
+				return tla.Value{}, tla.MakeBool(cfg.dev("client-timeout") && t.Deviate(2, "ClientTimeout.fires") == 1), nil
 			}
 		}
 		if c.NoClientTimeout {
